@@ -4,7 +4,8 @@ owning check must exit 1, then /repo is reverted. usage: tools/selftest.py [name
 import subprocess, sys, json, os, time
 M = [
  ("c01-context-key-slice", "C01", "src/store/mod.rs", "let frame_id_bytes = &key[16..];", "let frame_id_bytes = &key[..16];"),
- ("c01-included-bound", "C01", "src/store/mod.rs", "                    Bound::Excluded(v)\n", "                    Bound::Included(v)\n"),
+ ("c01-included-bound", "C01", "src/store/mod.rs", "                    Bound::Excluded(v)\n                } else {", "                    Bound::Included(v)\n                } else {"),
+ ("c03-snapshot-scan-included-bound", "C03", "src/store/mod.rs", "                        Bound::Excluded(v)\n                    }\n                    None => Bound::Included(ctx_id.as_bytes().to_vec()),", "                        Bound::Included(v)\n                    }\n                    None => Bound::Included(ctx_id.as_bytes().to_vec()),"),
  ("c07-no-reload", "C07", "src/store/mod.rs", "                store.contexts.write().unwrap().insert(frame.id);\n            }\n        }\n\n        // Spawn gc worker thread", "            }\n        }\n\n        // Spawn gc worker thread"),
  ("c07-remove-keeps-registry", "C07", "src/store/mod.rs", "self.verif.point(\"ctx.unregister\", Some(&frame));\n            self.contexts.write().unwrap().remove(&frame.id);\n", "self.verif.point(\"ctx.unregister\", Some(&frame));\n"),
  ("c07-import-over-registration-keeps-registry", "C07", "src/store/mod.rs", "        } else if replaced.is_some() {\n            self.contexts.write().unwrap().remove(&frame.id);\n", "        } else if replaced.is_some() {\n"),
@@ -12,7 +13,7 @@ M = [
  ("c08-expiry-in-seconds", "C08", "src/store/mod.rs", "created_ms.saturating_add(ttl.as_millis() as u64)", "created_ms.saturating_add(ttl.as_secs())"),
  ("c09-ephemeral-stored", "C09", "src/store/mod.rs", "        if frame.ttl != Some(TTL::Ephemeral) {\n            // the id was assigned above", "        {\n            // the id was assigned above"),
  ("c09-skip-keep-plus-one", "C09", "src/store/mod.rs", ".skip(keep as usize)", ".skip(keep as usize + 1)"),
- ("c03-scan-not-bounded-by-handoff", "C03", "src/store/mod.rs", "                        if frame.id > handoff_id {\n                            break;\n                        }\n", ""),
+ ("c03-history-scans-the-live-store", "C03", "src/store/mod.rs", "store.iter_frames_at(replay_at, options.context_id, options.last_id.as_ref())", "store.iter_frames_at(None, options.context_id, options.last_id.as_ref())"),
  ("c03-no-live-context-filter", "C06", "src/store/mod.rs", "                            if frame.context_id != context_id {\n                                continue;\n                            }\n", ""),
  ("c13-delete-is-a-noop", "C13", "src/api.rs", "    match store.remove(&id) {", "    match Ok::<(), crate::error::Error>(()) {"),
  ("c12-ttl-query-in-seconds", "C12", "src/store/ttl.rs", "TTL::Time(duration) => format!(\"ttl=time:{}\", duration.as_millis()),", "TTL::Time(duration) => format!(\"ttl=time:{}\", duration.as_secs()),"),
@@ -23,7 +24,7 @@ M = [
  ("c08-stale-topic-index-miscounts-head", "C08", "src/store/mod.rs", "        batch.remove(&self.idx_topic, topic_key);\n", ""),
  ("c02-id-outside-lock-no-hook-between", "C02", "src/store/mod.rs", "        let _append_guard = self.append_lock.lock().unwrap();\n        frame.id = scru128::new();\n", "        frame.id = scru128::new();\n        let _append_guard = self.append_lock.lock().unwrap();\n"),
  ("c02-broadcast-outside-lock", "C02", "src/store/mod.rs", "        let _append_guard = self.append_lock.lock().unwrap();\n        frame.id = scru128::new();\n", "        let _append_guard = if frame.topic == \"xs.context\" { Some(self.append_lock.lock().unwrap()) } else { None };\n        frame.id = scru128::new();\n"),
- ("c03-handoff-id-before-the-lock", "C03", "src/store/mod.rs", "            let _append_guard = self.append_lock.lock().unwrap();\n            (Some(self.broadcast_tx.subscribe()), Some(scru128::new()))", "            let handoff = scru128::new();\n            #[cfg(feature = \"verif\")]\n            self.verif.point_lock(\"read.lock\", &self.append_lock);\n            let _append_guard = self.append_lock.lock().unwrap();\n            (Some(self.broadcast_tx.subscribe()), Some(handoff))"),
+ ("c03-snapshot-instant-before-the-lock", "C03", "src/store/mod.rs", "            #[cfg(feature = \"verif\")]\n            self.verif.point_lock(\"read.lock\", &self.append_lock);\n            let _append_guard = self.append_lock.lock().unwrap();\n            (\n                Some(self.broadcast_tx.subscribe()),\n                Some(self.keyspace.instant()),\n            )", "            let at = self.keyspace.instant();\n            #[cfg(feature = \"verif\")]\n            self.verif.point_lock(\"read.lock\", &self.append_lock);\n            let _append_guard = self.append_lock.lock().unwrap();\n            (Some(self.broadcast_tx.subscribe()), Some(at))"),
  ("c04-ack-before-remove-sync", "C04", "src/store/mod.rs", "        batch.commit()?;\n        self.keyspace.persist(fjall::PersistMode::SyncAll)?;\n        #[cfg(feature = \"verif\")]\n        self.verif.point(\"commit.post\", Some(&frame));", "        batch.commit()?;\n        self.keyspace.persist(fjall::PersistMode::Buffer)?;\n        #[cfg(feature = \"verif\")]\n        self.verif.point(\"commit.post\", Some(&frame));"),
 ]
 sel = sys.argv[1] if len(sys.argv) > 1 else ""
